@@ -76,7 +76,8 @@ def correspondence(ctx):
                 continue
             ctx.count(stream, key=tuple(pairs), nontrivial=len(pairs) >= 2)
             results = {}
-            sp = lambda: " " * rng.choice([0, 0, 1])  # noqa: E731
+            # insignificant blanks: a space mostly, now and then another blank (tab, line end of a folded YAML value)
+            sp = lambda: rng.choice(["", "", "", " ", " ", " ", "\t", "\n", "\r\n", " \t"])  # noqa: E731
             # GitHub
             items = ["%s%s%s%s%s" % (sp(), _spell(rng, c, VR.vers_by_github_native_comparators), sp(), v, sp()) for c, v in pairs]
             gh = ",".join(items)
@@ -84,7 +85,7 @@ def correspondence(ctx):
             results["github-list"] = lambda: VR.build_range_from_github_advisory_constraint(scheme, items)
             # Snyk comma / space
             sk = [(_spell(rng, c, VR.vers_by_snyk_native_comparators), v) for c, v in pairs]
-            sc = ", ".join("%s%s" % (o, v) for o, v in sk)
+            sc = "".join(("," + (sp() or " ") if i else "") + "%s%s" % (o, v) for i, (o, v) in enumerate(sk))
             if len(sk) > 1:
                 results["snyk-comma"] = lambda: VR.build_range_from_snyk_advisory_string(scheme, sc)
             ss = " ".join("%s%s" % (o, v) for o, v in sk)
@@ -115,13 +116,15 @@ def correspondence(ctx):
                 sep = "," if purl == "pypi" else " "
                 if rng.random() < 0.5 and sep == " ":
                     g = "||".join("%s%s" % (o, v) for o, v in ops)
+                elif sep == ",":
+                    g = "".join(("," + sp() if i else "") + "%s%s%s" % (o, sp(), v) for i, (o, v) in enumerate(ops))
                 else:
                     g = sep.join("%s%s" % (o, v) for o, v in ops)
                 results["gitlab"] = lambda g=g, gl=gl: VR.from_gitlab_native(gl, g)
                 # the purl type is accepted in place of the GitLab name
                 results["gitlab-purl-name"] = lambda g=g, purl=purl: VR.from_gitlab_native(purl, g)
                 if purl == "composer":
-                    g2 = rng.choice([",", ", "]).join("%s%s" % (o, v) for o, v in ops)
+                    g2 = "".join(("," + sp() if i else "") + "%s%s" % (o, v) for i, (o, v) in enumerate(ops))
                     results["gitlab-comma"] = lambda g2=g2, gl=gl: VR.from_gitlab_native(gl, g2)
                     results["gitlab-comma-purl-name"] = lambda g2=g2, purl=purl: VR.from_gitlab_native(purl, g2)
             # vers
